@@ -10,7 +10,7 @@ trip lost a value, whether an unpack accepted something it must not (or rejected
 whether the receive gate let an oversized body through.  It shares nothing with the Lean model."""
 import json, os
 from ..vlib import leanlib, cbuild, judge
-from ..gen import g_wire, g_dec
+from ..gen import g_wire, g_dec, g_msg
 
 LEVEL = "proof"
 MAGIC, VERSION, HDR = 0x00606D4B, 4, 11
@@ -516,6 +516,9 @@ def run(ctx):
     if ctx.replay_in:
         return replay(ctx, gen_ok)
     h = build(ctx)
+    # m_msg_recv translated: order of checks, length gate before allocation
+    if g_msg.generate(ctx):
+        leanlib.check_props(ctx, "C14Recv")
     if gen_ok:
         leanlib.check_props(ctx, "C14")
         # the bridge: the credential model's request parser / reply builders (Model/Cred.lean: recvMsg, encRsp, decRsp) ARE the
